@@ -561,6 +561,8 @@ class Check:
             return {"exhaustive": False, "traces_validated_against_impl": len(ok)}
         items = harness.seeded_order(space(tier), seed)
         harness.pmap(work, items, rec)
+        # the example kept per finding key must not depend on worker scheduling: smallest input first
+        rec.violations.sort(key=lambda v: (v["key"], len(v["replay"]["rows"]), v["what"]))
         # degenerate frames: recorded, not judged
         for it in degenerate_items():
             spec = R.Spec(it["fn"], ["C_id"], ORDERS["asc"], (it["mode"], it["frame"][0], it["frame"][1]))
